@@ -387,6 +387,109 @@ def workspace_lengths(rep, F, tag):
     R.guard(body)
 
 
+def edge_matrix_lower(rep, F, tag):
+    """The clique-graph strategy keeps its weighted edges in the *lower* triangle of a sparse matrix: every writer and reader addresses (row, col) with
+    row > col.  An edge written at (c1, n) with n > c1 is invisible to assign_children, which looks it up at (max, min): the subtree below it gets no
+    parent and the analysis panics."""
+    R = rep.rule('C17.R13', 'clique-graph edge matrix: every set_entry / get_entry addresses the lower triangle ((max, min), or an index range that implies it)')
+
+    def body():
+        n = 0
+        nz = lambda t: t.replace('withoverflow', '').replace(').0', ')')
+        for f in F.fns:
+            if 'chordal/merge/clique_graph' not in f.file and 'chordal/supernode_tree' not in f.file:
+                continue
+            for c in f.calls:
+                if c.callee.name not in ('set_entry', 'get_entry') or len(c.args) < 2:
+                    continue
+                t = nz(canon(f.sym_operand(c.args[1])))
+                if not t.startswith('tuple('):
+                    continue
+                a = split_args(t)
+                if len(a) != 2:
+                    continue
+                n += 1
+                r_, c_ = a
+                ok = False
+                m1, m2 = re.fullmatch(r'max\((.*)\)', r_), re.fullmatch(r'min\((.*)\)', c_)
+                if m1 and m2 and sorted(split_args(r_)) == sorted(split_args(c_)):
+                    ok = True
+                # row runs over a range that starts above the column index
+                m = re.fullmatch(r'next\(into_iter\(Range::Range\(add\((.*), 1_usize\), .*\)\)\)@Some\.0', r_)
+                if m and m.group(1) == c_:
+                    ok = True
+                # column runs over a range that ends below the row index
+                m = re.fullmatch(r'next\(into_iter\(Range::Range\(0_usize, (.*)\)\)\)@Some\.0', c_)
+                if m and m.group(1) == r_:
+                    ok = True
+                # the candidate pair handed over by traverse() is the (row, col) of a stored entry
+                if f.name == 'evaluate' and (r_, c_) == ('arg3.0', 'arg3.1'):
+                    ok = True
+                R.check(ok, 'lower|%s|%s%s' % (f.name, c.callee.name, tag),
+                        '%s calls %s at (%s, %s): the edge matrix is lower triangular, the pair must be (max, min) of the two cliques (or come from an index range that implies '
+                        'row > col) - an edge stored in the upper triangle is never found again' % (f.name, c.callee.name, r_[:60], c_[:60]), f.loc(c.sp))
+        R.check(n >= 6, 'sites' + tag, 'only %d edge-matrix accesses found' % n)
+
+    R.guard(body)
+
+
+def analysis_gate(rep, F, tag):
+    """"a pattern is left undecomposed only when it is dense or merges to a single clique": before the analysis runs, try_chordal_info may give up only
+    because decomposition is switched off or because *no* PSD cone is larger than the small-cone threshold (3).  A gate that closes because *some* cone is
+    small skips the analysis of every other cone of the problem."""
+    R = rep.rule('C17.R14', 'try_chordal_info skips the analysis only if decomposition is disabled or no PSD cone exceeds the small-cone threshold; afterwards only if nothing was decomposed')
+
+    def body():
+        f = F.one(name='try_chordal_info')
+        cls = F.closures_of.get(f.key, [])
+        if not R.check(len(cls) == 1, 'one-predicate' + tag, 'try_chordal_info has %d closures' % len(cls), f.loc()):
+            return
+        g = cls[0]
+        psd = [int(v['discr']) if v['discr'] is not None else i for i, v in enumerate(F.adt('SupportedConeT')['variants']) if v['n'] == 'PSDTriangleConeT']
+        if not psd:
+            raise AnchorError('SupportedConeT has no PSDTriangleConeT variant in this configuration')
+        for val, ret, ev, tr in Walker(g).leaves():
+            if ret[0] != 'c':
+                R.bad('predicate-shape' + tag, 'the cone predicate returns %s' % (ret,), g.loc())
+                continue
+            d = val.get('discr(arg2)')
+            big = None          # does the path know dim > K for some K <= 3 ?
+            for k, v in val.items():
+                m = re.fullmatch(r'(lt|le|gt|ge)\((.*), (.*)\)', k)
+                if not m:
+                    continue
+                op, x, y = m.groups()
+                num = lambda t: int(t.split('_')[0]) if re.fullmatch(r'\d+_usize', t) else None
+                if num(x) is not None and 'PSDTriangleConeT.0' in y:        # K op dim
+                    K = num(x)
+                    holds = {'lt': v == 1, 'le': v == 1, 'gt': v == 0, 'ge': v == 0}[op]
+                    thr = K + (0 if op in ('lt', 'ge') else -1)             # dim > thr
+                    big = (holds, thr)
+                elif num(y) is not None and 'PSDTriangleConeT.0' in x:      # dim op K
+                    K = num(y)
+                    holds = {'gt': v == 1, 'ge': v == 1, 'lt': v == 0, 'le': v == 0}[op]
+                    thr = K + (0 if op in ('gt', 'le') else -1)
+                    big = (holds, thr)
+            if ret[1] == 1:
+                R.check(d in psd and big is not None and big[0], 'counts-only-large-psd' + tag, 'the predicate counts a cone under %s' % val, g.loc())
+            else:
+                R.check(d not in psd or (big is not None and not big[0] and big[1] <= 3), 'every-large-psd-counts' + tag,
+                        'the predicate ignores a PSD cone under %s: every PSD cone of dimension > 3 must keep the analysis alive' % val, g.loc())
+        for val, ret, ev, tr in Walker(f).leaves():
+            if ret[0] != 's':
+                continue
+            en = val.get('arg4.chordal_decomposition_enable')
+            anyk = [v for k, v in val.items() if k.startswith('any(iter(arg3)')] + [1 - v for k, v in val.items() if k.startswith('all(iter(arg3)')]
+            dec = [v for k, v in val.items() if k.startswith('is_decomposed(')]
+            if str(ret[1]) == 'Option::None':
+                why = (en == 0) or (anyk and anyk[0] == 0 and not dec) or (dec and dec[0] == 0)
+                R.check(bool(why), 'skip-reason' + tag, 'try_chordal_info returns None under %s: allowed are disabled, no PSD cone above the threshold, nothing decomposed' % val, f.loc())
+            else:
+                R.check(en == 1 and anyk and anyk[0] == 1 and dec and dec[0] == 1, 'some-reason' + tag, 'try_chordal_info returns the decomposition under %s' % val, f.loc())
+
+    R.guard(body)
+
+
 def run(ctx, rep, tier):
     for cfg in (CONFIGS_THOROUGH if tier == 'thorough' else CONFIGS):
         F = ctx.facts(cfg)
@@ -400,6 +503,8 @@ def run(ctx, rep, tier):
         merge_loop(rep, F, tag)
         merge_roles(rep, F, tag)
         workspace_lengths(rep, F, tag)
+        edge_matrix_lower(rep, F, tag)
+        analysis_gate(rep, F, tag)
         # the clique-graph edge matrix is edited with set_entry and queried with get_entry (binary search): columns must stay sorted (C16.R14 re-run)
         from . import c16
         c16.entry_access(rep, F, tag, 'C17.R10')
